@@ -560,6 +560,24 @@ class Peer:
             d = rp.dec_getcf(req, with_height=False)
             fh = [r.getrandbits(256).to_bytes(32, "big") for _ in range(step["count"])]
             return [(b"cfcheckpt", rp.enc_cfcheckpt(d["type"], d["stop"], fh))]
+        if op == "retarget":
+            # three headers: first and last of a 2016-block period (bits B, timestamps T0 and T0 + span) and the first header of the
+            # next period, whose bits the peer computes with the consensus formula (the proof of work of these headers is not the point)
+            b0 = bytes.fromhex(step["bits"])
+            t0 = step["t0"]
+            nb = rp.retarget(b0, step["span"])
+            if step.get("lie"):
+                nbb = bytearray(nb)
+                nbb[step["lie"] % 3] ^= 1 << (step["lie"] % 8)
+                nb = bytes(nbb)
+                self.sess.trace.fault("retarget_lie")
+            prev = r.getrandbits(256).to_bytes(32, "big")
+            hs = []
+            for (tt, bb) in ((t0, b0), ((t0 + step["span"]) % 2**32, b0), ((t0 + step["span"] + 600) % 2**32, nb)):
+                h = rp.header80(2, prev, r.getrandbits(256).to_bytes(32, "big"), tt, bb, r.getrandbits(32).to_bytes(4, "big"))
+                hs.append(h)
+                prev = rp.header_hash(h)
+            return [(b"headers", rp.enc_headers(hs))]
         if op in ("send_version", "raw_send"):
             return []
         raise ValueError(op)
@@ -958,6 +976,36 @@ def run_step(sess, cl, peer, step, prop):
             if hs and rp.dec_header(hs[0])["prev"] != start:
                 fail("C19", "P4", "headers_not_linked_to_request", "honest peer's first header does not link to the requested start")
         return
+    if op == "retarget":
+        from buidl.helper import calculate_new_bits
+
+        node.send(GetHeadersMessage(start_block=bytes(32)))
+        hm, payload = cl.wait_for(HeadersMessage)
+        if len(hm.headers) != 3:
+            return
+        h0, h1, h2 = hm.headers
+        span = (h1.timestamp - h0.timestamp) % 2**32
+        want = rp.retarget(h0.bits, span)
+        tr.oracle("M4")
+        tr.probe("c17_validated")
+        tr.probe("retarget_" + ("clamp_low" if span < rp.TWO_WEEKS // 4 else "clamp_high" if span > rp.TWO_WEEKS * 4 else "mid"))
+        try:
+            got = calculate_new_bits(h0.bits, span)
+        except SimDeadlock:
+            raise
+        except Exception as e:
+            fail("C17", "M4", "retarget_raised" + ("_small_exponent" if h0.bits[3] < 4 else ""), f"calculate_new_bits({h0.bits.hex()}, {span}) raised {type(e).__name__}: {e}; consensus gives {want.hex()}")
+            return
+        if got != want:
+            fail("C17", "M4", "retarget_differs" + ("_small_exponent" if h0.bits[3] < 4 else ""), f"calculate_new_bits({h0.bits.hex()}, {span}) = {bytes(got).hex()}, consensus formula gives {want.hex()}")
+        # the SPV client's verdict on the served next-period header: equal bits <=> honest
+        accepts = bytes(got) == h2.bits
+        if accepts != (h2.bits == want):
+            fail("C17", "M4", "retarget_verdict", "client's accept/reject of the next period's bits differs from the consensus verdict")
+        t, neg, ovf = rp.compact_to_target(h0.bits)
+        if not neg and not ovf and h0.bits[3] >= 3 and h0.target() != t:
+            fail("C17", "M3", "target", f"bits {h0.bits.hex()} -> {h0.target()} != consensus {t}")
+        return
     if op in ("filtered", "block"):
         blocks = [chain["blocks"][i % len(chain["blocks"])] for i in step["blocks"]]
         hashes = [b["hash"] for b in blocks]
@@ -1329,6 +1377,24 @@ def gen_step(ch, op, chain_cfg, tier, enabled, p_fault):
             s["filters"] = SAMPLE_FILTERS
         else:
             s["count"] = ch.choice([0, 1, 2, 0xFC, 0xFD, 300]) if ch.chance(0.4) else ch.randrange(0, 20)
+    elif op == "retarget":
+        s["trigger"] = "getheaders"
+        m = ch.randrange(6)
+        if m < 4:
+            # a normalised target at or below the proof-of-work limit
+            t = ch.choice([0xFFFF << 208, 0xFFFF << 200, ch.getrandbits(ch.randrange(30, 224)) | 1, 0x7FFFFF << ch.randrange(8, 200), 0x8000 << ch.randrange(8, 200), 0x800000 << 100])
+            t = min(t, 0xFFFF << 208)
+            s["bits"] = rp.target_to_compact(t).hex()
+        elif m == 4:
+            s["bits"] = ch.choice(["ffff001d", "6ad8001d", "ffff7f20", "cb04041b"])
+        else:
+            # exponents 1..3 (tiny targets)
+            s["bits"] = (ch.randrange(1, 0x7FFFFF).to_bytes(3, "little") + bytes([ch.choice([1, 2, 3])])).hex()
+        tw = 14 * 24 * 3600
+        s["span"] = ch.choice([tw, tw // 4, tw // 4 - 1, tw // 4 + 1, tw * 4, tw * 4 - 1, tw * 4 + 1, 1, 0, tw * 10, ch.randrange(1, tw * 6)])
+        s["t0"] = ch.randrange(1231006505, 2**32 - tw * 12)
+        if ch.chance(0.3):
+            s["lie"] = ch.randrange(1, 24)
     elif op == "getdata_layout":
         s["trigger"] = "-"
         s["n"] = ch.choice([0, 1, 0xFC, 0xFD, 0xFE, 300]) if ch.chance(0.5) else ch.randrange(0, 50)
@@ -1379,7 +1445,7 @@ def generate(ch, tier, prop):
         ops_pool = [("ping", 3), ("echo", 4), ("send_version", 2), ("getheaders", 2), ("filtered", 2), ("tx_accepted", 1), ("cfilters", 1), ("cfheaders", 1),
                     ("cfcheckpt", 1), ("getdata_layout", 1), ("block", 1)]
     else:
-        ops_pool = [("getheaders", 4), ("filtered", 6), ("block", 2), ("ping", 1)]
+        ops_pool = [("getheaders", 4), ("filtered", 6), ("block", 2), ("ping", 1), ("retarget", 3)]
     steps = []
     if ch.chance(0.85):
         steps.append(gen_step(ch, "handshake", chain, tier, enabled, p_fault))
@@ -1408,7 +1474,55 @@ def _measure(plan, step_idx):
     return lens[step_idx] if step_idx < len(lens) else 0
 
 
+def _c17_base(seed, txs):
+    return {"network": "regtest", "clock": {"base": 1700000000}, "nonce": 7, "frag_seed": 5 + seed, "frag": "whole", "chain": {"seed": 1000 + seed + sum(txs), "txs": txs}, "steps": []}
+
+
+def enumerate_c17(tier, seed):
+    """Exhaustive family of the property's quantifier: all trees with 1..N leaves and all 2^n match subsets (honest proofs, M2),
+    and every single-bit alteration (hashes, flags, total, root) plus dropped/extra/swapped hashes of sampled proofs (M1)."""
+    top = 8 if tier == "quick" else 10
+    for n in range(1, top + 1):
+        for mask in range(1 << n):
+            base = _c17_base(seed, [n])
+            base["steps"] = [{"op": "filtered", "trigger": "getdata", "blocks": [0], "match": [[i for i in range(n) if (mask >> i) & 1]], "bf": {"size": 8, "funcs": 2, "tweak": mask}}]
+            base["enum"] = "trees"
+            yield base
+    trees = [(7, [1, 4])] if tier == "quick" else [(5, [0, 3]), (7, [1, 4]), (12, [2, 3, 11]), (33, [0, 32])]
+    for n, match in trees:
+        step_bits = 7 if tier == "quick" else 1
+        def plan(fault):
+            base = _c17_base(seed, [n, 3])
+            base["steps"] = [{"op": "filtered", "trigger": "getdata", "blocks": [0], "match": [match], "bf": {"size": 8, "funcs": 2, "tweak": 1}, "fault": fault}]
+            base["enum"] = "alterations"
+            return base
+        for h in range(8):
+            for bit in range(0, 256, step_bits):
+                yield plan({"kind": "mb_flip_hash", "a": h, "b": bit, "nth": 0})
+        for bit in range(0, 24):
+            yield plan({"kind": "mb_flip_flag", "a": bit, "b": 0, "nth": 0})
+        for bit in range(0, 17):
+            yield plan({"kind": "mb_flip_total", "a": bit, "b": 0, "nth": 0})
+        for bit in range(0, 256, step_bits):
+            yield plan({"kind": "mb_flip_root", "a": bit, "b": 0, "nth": 0})
+        yield plan({"kind": "mb_drop_hash", "a": 0, "b": 0, "nth": 0})
+        yield plan({"kind": "mb_extra_hash", "a": 1, "b": 0, "nth": 0})
+        for a in range(6):
+            for b in range(a + 1, 6):
+                yield plan({"kind": "mb_swap_hashes", "a": a, "b": b, "nth": 0})
+    # header batches: every position of a bad-PoW / broken-link / hard-bits header in a batch of 6
+    for k in range(6):
+        for kind in ("hdr_bad_pow", "hdr_break_link", "hdr_hard_bits", "hdr_txcount", "hdr_relink_valid"):
+            base = _c17_base(seed, [1, 2, 1, 3, 1, 2])
+            base["steps"] = [{"op": "getheaders", "trigger": "getheaders", "start": "base", "max": 2000, "fault": {"kind": kind, "a": k, "b": 0}}]
+            base["enum"] = "headers"
+            yield base
+
+
 def enumerate_plans(tier, prop, seed):
+    if prop == "C17":
+        yield from enumerate_c17(tier, seed)
+        return
     if prop != "C19":
         return
     ch = __import__("sim.core", fromlist=["Chooser"]).Chooser(f"{seed}/p2p/enum")
